@@ -52,9 +52,25 @@ int vnadata_set_fz0_vector(vnadata_t *vdp, int findex,
     }
     ports = MAX(vdp->vd_rows, vdp->vd_columns);
     if (!(vdip->vdi_flags & VF_PER_F_Z0)) {
+	double complex z0_copy[MAX(ports, 1)];
+
+	/*
+	 * The conversion frees the simple z0 vector, and z0_vector may
+	 * point to it (vnadata_get_z0_vector, vnadata_get_fz0_vector):
+	 * copy first.
+	 */
+	if (ports > 0) {
+	    (void)memcpy((void *)z0_copy, (void *)z0_vector,
+		    ports * sizeof(double complex));
+	}
 	if (_vnadata_convert_to_fz0(vdip) == -1) {
 	    return -1;
 	}
+	if (ports > 0) {
+	    (void)memcpy((void *)vdip->vdi_z0_vector_vector[findex],
+		    (void *)z0_copy, ports * sizeof(double complex));
+	}
+	return 0;
     }
     if (ports > 0) {
 	(void)memcpy((void *)vdip->vdi_z0_vector_vector[findex],
